@@ -655,12 +655,25 @@ func site(skip int) string {
 		}
 		s = fmt.Sprintf("%s:%d", f, fr.Line-instrumented[fr.File])
 		siteCache[pc] = s
+		fn := fr.Function
+		if i := strings.LastIndex(fn, "/"); i >= 0 {
+			fn = fn[i+1:]
+		}
+		siteFunc[s] = fn
 	}
 	siteMu.Unlock()
 	return s
 }
 
 var siteCache = map[uintptr]string{}
+var siteFunc = map[string]string{}
+
+// SiteFunc returns the function containing a site reported by the scheduler ("" if unknown).
+func SiteFunc(site string) string {
+	siteMu.Lock()
+	defer siteMu.Unlock()
+	return siteFunc[site]
+}
 
 // instrumented maps a source path to the number of header lines the instrumenter added.
 var instrumented = map[string]int{}
@@ -764,6 +777,14 @@ func Select(where string, hasDefault bool, cases ...SelCase) Sel {
 			return Sel{Idx: -1}
 		}
 		panic("vrt: select would block in inactive (sequential) mode at " + where)
+	}
+	site(2) // registers the enclosing function for `where`-style sites (see SiteFunc)
+	if rs := site(2); rs != where {
+		siteMu.Lock()
+		if _, ok := siteFunc[where]; !ok {
+			siteFunc[where] = siteFunc[rs]
+		}
+		siteMu.Unlock()
 	}
 	tok, i := chanOp(where, cases, hasDefault)
 	return Sel{Idx: i, tok: tok}
